@@ -96,7 +96,7 @@ func genNumberText(rng *rand.Rand) string {
 		lit += []string{"e", "E"}[rng.Intn(2)] + []string{"", "+", "-"}[rng.Intn(3)] + digits(3)
 	}
 	if rng.Intn(12) == 0 {
-		lit += []string{"a", "x", "_", "e", "$"}[rng.Intn(5)]
+		lit += []string{"a", "x", "_", "e", "$", "\u0662", "\uff13", "e\u0662", "_\u0663", "\U0001d7d8", "\u00a0+ 1", "\u3000", "\u2028"}[rng.Intn(13)]
 	}
 	ctxs := []string{"%s", "[%s]", "-%s", "%s + %s", "f(%s)", "c ? %s : %s", "[%s, %s]", "%s .x", "(%s)", "$a = %s", "%s\n+ 1", "a.b(%s)"}
 	c := ctxs[rng.Intn(len(ctxs))]
